@@ -95,6 +95,44 @@ func TestC18Copy(t *testing.T) {
 			src = sr
 		}
 
+		// The source may have been copied once before, at a time when its byte
+		// strings and lists were still nil; they got their values afterwards.
+		if rapid.IntRange(0, 3).Draw(t, "copiedEarlier") == 0 {
+			if p := oracle.Try(func() {
+				held := map[string]any{}
+
+				for _, k := range []string{"by", "byn", "m"} {
+					_, isAttr := src.Attrs()[k]
+					_, isRel := src.Rels()[k]
+
+					if !isAttr && !isRel {
+						continue
+					}
+
+					held[k] = src.Get(k)
+
+					switch k {
+					case "by":
+						src.Set(k, []byte(nil))
+					case "byn":
+						src.Set(k, (*[]byte)(nil))
+					default:
+						src.Set(k, []string(nil))
+					}
+				}
+
+				_ = src.(jsonapi.Copier).Copy()
+
+				for _, k := range gen.SortedKeys(held) {
+					src.Set(k, held[k])
+				}
+			}); p != nil {
+				t.Fatalf("C18 violated: an earlier Copy of the source %s\ntype: %s", p, ts)
+			}
+
+			history = append(history, "the source was copied once before, with nil byte strings and lists")
+		}
+
 		// Slices with room to grow (emptied in place, or built with spare
 		// capacity): what is appended on one side later must not land in
 		// memory the other side uses.
